@@ -372,3 +372,36 @@ Proof.
 Qed.
 
 End WithModel.
+
+Section Handout.
+Variable pol : path -> option bool.
+Variable decay : Q -> N -> N -> Q.
+
+Lemma step_out_live c s e s' p :
+  step pol decay c s e = (s', OPath p) ->
+  (exists now, e = Send now \/ e = SendWait now) /\ expired_at_handout p (ev_time e) = false.
+Proof.
+  unfold step. destruct (s_dead s); [discriminate|].
+  destruct e as [now a jit|now i|now|now m|now|now]; intros E.
+  - unfold maintain in E. destruct (_ && _); [discriminate|].
+    destruct (s_next_refetch _ <=? now); discriminate.
+  - destruct (target_type i); [|discriminate].
+    destruct (add_issue c (s_im s) i _) as [[im bc] pn]. discriminate.
+  - destruct (s_chan s); discriminate.
+  - discriminate.
+  - unfold hand_out in E. destruct (s_active s) as [q|]; [|discriminate].
+    destruct (expired_at_handout q now) eqn:X; inv E. split; [exists now; auto|exact X].
+  - destruct (s_active s) as [q|]; [|discriminate].
+    destruct (expired_at_handout q now) eqn:X; inv E. split; [exists now; auto|exact X].
+Qed.
+
+Lemma step_tick_window c s now a jit s' :
+  cfg_valid c = true -> step pol decay c s (Tick now a jit) = (s', OTick true) ->
+  now + c_min_delay c <= s_next_refetch s' /\ s_next_refetch s' <= now + N.max (c_refetch c) (c_bo_max c).
+Proof.
+  intros V. unfold step. destruct (s_dead s); [discriminate|].
+  unfold maintain. destruct (_ && _); [discriminate|].
+  destruct (s_next_refetch _ <=? now); intros E; inv E.
+  apply fetch_and_update_window. exact V.
+Qed.
+End Handout.
